@@ -34,16 +34,16 @@ type lstInfo struct {
 }
 
 type model struct {
-	toks    map[string]*tokInfo
-	phase   int
-	srcSeq  map[string]int
-	active  []string // live agents in registration order
-	dead    map[string]bool
-	lst     map[string]*lstInfo
-	lstOrd  []string
-	inConc  bool
-	concPh  int
-	lastBarrier string
+	toks        map[string]*tokInfo
+	phase       int
+	srcSeq      map[string]int
+	active      []string // live agents in registration order
+	dead        map[string]bool
+	lst         map[string]*lstInfo
+	lstOrd      []string
+	inConc      bool
+	concPh      int
+	lastBarrier []string // last message of every monitor in the latest barrier
 }
 
 func newModel() *model {
@@ -106,6 +106,14 @@ func canon(b []byte) (any, error) {
 	return v, err
 }
 
+func tailBriefs(s0, s1 [][]byte) []string {
+	var out []string
+	for i := len(s0); i < len(s1) && len(out) < 4; i++ {
+		out = append(out, brief(s1[i]))
+	}
+	return out
+}
+
 func brief(b []byte) string {
 	if len(b) > 300 {
 		return string(b[:300]) + "…"
@@ -150,20 +158,14 @@ func wholeFrames(frames []opclient.Frame) []finding {
 
 // checkReplay judges the frames a newcomer received between its login verdict and the
 // end-of-replay marker, for a login made at quiescence.
-//   replay  frames strictly between verdict and marker
-//   s1      retained log right after the login (quiescent), rendered
-//   self    newcomer's user name
+//
+//	replay  frames strictly between verdict and marker
+//	s1      retained log right after the login (quiescent), rendered
+//	self    newcomer's user name
 func (m *model) checkReplay(replay []opclient.Frame, s0, s1 [][]byte, self string) []finding {
 	var out []finding
 	out = append(out, wholeFrames(replay)...)
 	if len(out) > 0 {
-		return out
-	}
-
-	// (0) the login itself records exactly one new-user event, before the replay
-	if len(s1) != len(s0)+1 {
-		out = append(out, finding{Sig: "replay:login-recorded-unexpected-events",
-			What: fmt.Sprintf("a login at quiescence changed the retained log from %d to %d entries (expected +1: the new-user event)", len(s0), len(s1))})
 		return out
 	}
 
@@ -176,6 +178,14 @@ func (m *model) checkReplay(replay []opclient.Frame, s0, s1 [][]byte, self strin
 				Det: map[string]any{"index": i, "entry": brief(b)}})
 			return out
 		}
+	}
+
+	// (0) the login itself records exactly one new-user event, before the replay
+	if len(s1) != len(s0)+1 {
+		out = append(out, finding{Sig: "replay:login-recorded-unexpected-events",
+			What: fmt.Sprintf("a login at quiescence changed the retained log from %d to %d entries (expected +1: the new-user event)", len(s0), len(s1)),
+			Det:  map[string]any{"new_entries": tailBriefs(s0, s1)}})
+		return out
 	}
 
 	// split: retained part, then live sessions
@@ -200,8 +210,19 @@ func (m *model) checkReplay(replay []opclient.Frame, s0, s1 [][]byte, self strin
 		f := part1[diffAt]
 		sig := "replay:differs-from-retained-log"
 		what := fmt.Sprintf("replayed frame %d is not retained entry %d", diffAt, diffAt)
-		// classify: extra frame (the rest lines up when it is skipped) or order/content
-		if diffAt+1 < len(replay) {
+		// classify: two neighbours swapped, extra frame (the rest lines up when it is
+		// skipped), one entry skipped, or other order/content difference
+		if diffAt+1 < len(replay) && diffAt+1 < n1 {
+			a0, _ := canon(replay[diffAt].Raw)
+			a1, _ := canon(replay[diffAt+1].Raw)
+			b0, _ := canon(s1[diffAt])
+			b1, _ := canon(s1[diffAt+1])
+			if reflect.DeepEqual(a0, b1) && reflect.DeepEqual(a1, b0) {
+				sig = "replay:out-of-order"
+				what = fmt.Sprintf("retained entries %d and %d are replayed in the opposite order", diffAt, diffAt+1)
+			}
+		}
+		if sig == "replay:differs-from-retained-log" && diffAt+1 < len(replay) {
 			a, _ := canon(replay[diffAt+1].Raw)
 			b, _ := canon(s1[diffAt])
 			if reflect.DeepEqual(a, b) {
